@@ -32,6 +32,19 @@ theorem writeAll_eq (ws : List Bytes) : writeAll ws = writeAllWith writeSplit fa
   have : writeOne = writeSplit := by funext b; simp [writeOne, write_splits.1]
   simp [writeAll, this]
 
+/-- Splitting is only done when needed: a write of at most 65 535 bytes (every MTProto frame of
+ordinary size, and the empty write) goes out as exactly one application record carrying it whole. -/
+theorem small_write_single_record (b : Bytes) (h : b.length ≤ 65535) :
+    writeOne b = record tApp writeVersion b := by
+  have hw : writeOne = writeSplit := by funext b; simp [writeOne, write_splits.1]
+  rw [hw]
+  unfold writeSplit chunks
+  cases hb : b.length with
+  | zero => simp [chunksF]
+  | succ n =>
+    have : splitNeeded (n + 1) = false := by rw [write_splits.2.1]; simp; omega
+    simp [chunksF, hb, this]
+
 /-- **Every record stays within the 16-bit length**: the connection bytes are a sequence of records
 (first-packet ChangeCipherSpec or application data) each carrying at most 65 535 bytes, whose
 application payloads concatenate to the written bytes. -/
